@@ -4,7 +4,7 @@ from props import drawgen, c02
 
 RULE = ("all 8x8 (built-with, set-to) pairs plus random longer orientation sequences on non-square offset windows, each followed by a "
         "drawing program (in- and out-of-bounds, fills, clear); reported orientation / size / bounding box, controller MADCTL and the "
-        "decoded write history are compared with the specification for the LAST orientation set; additionally the per-op traces after the "
+        "decoded write history are compared with the specification for the LAST orientation set (calls that FAIL at the bus — one in six in the random sequences — must leave everything as it was); additionally the per-op traces after the "
         "last set_orientation are compared with those of a twin display built directly with that orientation; non-trivial = the last "
         "orientation differs from the built one")
 TRUSTED = ["Oracle/Controller.v, Oracle/DrawSpec.v"]
@@ -30,6 +30,9 @@ def gen(rng, tier, info):
         if rng.chance(1, 3):
             ops.append((-1, ("cl", 0)))
         for (r, mm) in seq:
+            if k >= len(pairs) and rng.chance(1, 6):
+                # this call fails at the bus: nothing the display reports or does afterwards may have moved
+                ops.append((0, ("so", rng.below(4), rng.below(2))))
             ops.append((-1, ("so", r, mm)))
             if rng.chance(1, 3):
                 w, h = pc["opts"]["w"], pc["opts"]["h"]
